@@ -220,3 +220,34 @@ for _variant, _ptype, _is_list, _in in (("", "Str", "False", "l == layers"), ("@
                          f"unwrap(self._rule)._configuration.modules_to_check == unwrap(old(self)._rule)._configuration.modules_to_check)"],
                      properties=["C13", "C16", "C05"]))
 REG.contracts[f"{LR}.are_named"].alt = REG.contracts[f"{LR}.are_named@list"]
+
+# ================================================================ C05: the layer-rule evaluation pipeline (detector buckets, grouping by layers)
+# The detector's proofs keep the layer mapping opaque: layer_of(L, n) (above) and layers_of(L) = the layer names the mapping knows are uninterpreted functions of the
+# mapping object. What they ARE on a real LayerMapping is proved in the string view (c_layermap.py: get_layer_for_module_name@str, all_layers@str).
+REG.add(Contract("LayerMapping.all_layers", module=M_EA2, kind="property", status="abstraction", pure=True,
+                 params=dict(self="Opaque[LayerMapping]"), returns="Bag[Str]",
+                 note="opaque view of LayerMapping.all_layers (the keys of the layer definition; proved in the string view as LayerMapping.all_layers@str): ONE uninterpreted set layers_of(mapping)"))
+REG.macro("layers_of", ["L"], "LayerMapping.all_layers(L)")
+# the module of an (importer, importee) pair that decides which OBJECT layer the pair belongs to: the rule object's side
+REG.macro("rel_mod_b", ["subj", "k"], "k[1] if subj else k[0]")
+REG.macro("dep_layer", ["subj", "L", "k"], "layer_of(L, mid(rel_mod_b(subj, k)))")
+# 'no realised import into object layer l': the group of l is non-empty, l is a layer of the mapping, and NO pair of the group has a realisation -> every pair of the group is reported
+REG.define("layer_abstract_b", dict(subj="Bool", L="Opaque[LayerMapping]", r="Dict[Dep,Bag[Dep]]", x="Dep"),
+           "exists(Dep, lambda k: (k in r) and x == order_b(subj, k) and (not is_none(dep_layer(subj, L, k))) and (unwrap(dep_layer(subj, L, k)) in layers_of(L)) and "
+           "forall(Dep, lambda k2: implies((k2 in r) and dep_layer(subj, L, k2) == dep_layer(subj, L, k), not nonempty(r[k2]))))")
+REG.macro("layer_abstract_rel", ["mr", "L", "d", "x"], "layer_abstract_b(mr._importer_specified_as_rule_subject, L, d, x)")
+# 'no access to anything else': reported (one pair per subject module and user-specified object) iff NO reported other-import crosses a layer boundary
+REG.define("layer_missing_b", dict(subj="Bool", objs="Bag[Filter]", L="Opaque[LayerMapping]", r="Dict[Mod,Bag[Dep]]", x="Dep"),
+           "(not exists(Dep, lambda y: realised_m_b(subj, r, y) and cross_layer(L, y))) and exists(Mod, Filter, lambda m, o: (m in r) and (o in objs) and x == (m, f2m(o)))")
+REG.macro("layer_missing_rel", ["mr", "L", "d", "x"], "layer_missing_b(mr._importer_specified_as_rule_subject, mr._importees_as_specified_by_user, L, d, x)")
+
+REG.add(Contract(f"{LD}.__init__", module=M_LD, kind="method",
+                 params=dict(self=LD, module_requirement="ModuleRequirement", behavior_requirement="BehaviorRequirement", layer_mapping="Opaque[LayerMapping]"),
+                 returns="None", modifies=["self"],
+                 ensures=["self._module_requirement == module_requirement", "self._behavior_requirement == behavior_requirement", "self._layer_to_module_mapping == layer_mapping"],
+                 properties=["C05"]))
+REG.add(Contract(f"{LD}._get_module_relevant_for_layer", module=M_LD, kind="method", params=dict(self=LD, dependency="Dep"), returns="Mod",
+                 # C05: pairs are grouped by the layer of the RULE OBJECT's side (importee for 'access', importer for 'be accessed by')
+                 defn="rel_mod_b(self._module_requirement._importer_specified_as_rule_subject, dependency)", properties=["C05"]))
+REG.add(Contract(f"{LD}._get_layer_for_module", module=M_LD, kind="method", params=dict(self=LD, module="Mod"), returns="Opt[Str]",
+                 defn="layer_of(self._layer_to_module_mapping, mid(module))", properties=["C05"]))
